@@ -33,7 +33,7 @@ static uint8_t VGC_INW, VGC_S0A;   /* input[W] and buffered keystream byte [p0 +
 static uint8_t VGC_T0, VGC_PP;     /* loop 3: templen and posn at its start */
 static size_t VGC_DB;              /* loop 3: bytes done before it */
 /* ghost call log of the interface functions */
-static unsigned VGC_SK_N; static const void *VGC_SK_KEY; static size_t VGC_SK_LEN; static bool VGC_SK_RET;
+static unsigned VGC_SK_N; static const void *VGC_SK_KEY; static size_t VGC_SK_LEN; static int VGC_SK_RET;
 static size_t VGC_BS; static unsigned VGC_CLR_N;
 
 /* low m bytes mask and addition on the low m bytes of a 128-bit big-endian value */
@@ -52,7 +52,7 @@ static size_t VGC_BS; static unsigned VGC_CLR_N;
 #define VC_BlockCipher__keySize __CPROVER_assigns()
 #define VC_BlockCipher__setKey \
     __CPROVER_assigns(VGC_SK_N, VGC_SK_KEY, VGC_SK_LEN, VGC_SK_RET) \
-    __CPROVER_ensures(VGC_SK_N == __CPROVER_old(VGC_SK_N) + 1 && VGC_SK_KEY == key && VGC_SK_LEN == len && VGC_SK_RET == __CPROVER_return_value)
+    __CPROVER_ensures(VGC_SK_N == __CPROVER_old(VGC_SK_N) + 1 && VGC_SK_KEY == key && VGC_SK_LEN == len && VGC_SK_RET == (__CPROVER_return_value ? 1 : 0))
 #define VC_BlockCipher__clear \
     __CPROVER_assigns(VGC_CLR_N) __CPROVER_ensures(VGC_CLR_N == __CPROVER_old(VGC_CLR_N) + 1)
 #define VC_BlockCipher__decryptBlock __CPROVER_requires(0) __CPROVER_assigns()   /* never called by CTR */
@@ -80,8 +80,8 @@ static size_t VGC_BS; static unsigned VGC_CLR_N;
     __CPROVER_requires(ACTR_INV) \
     __CPROVER_assigns(posn, VGC_SK_N, VGC_SK_KEY, VGC_SK_LEN, VGC_SK_RET) \
     __CPROVER_ensures(VGC_BS != 16 ==> (__CPROVER_return_value == 0 && VGC_SK_N == __CPROVER_old(VGC_SK_N) && posn == __CPROVER_old(posn))) \
-    __CPROVER_ensures(VGC_BS == 16 ==> (VGC_SK_N == __CPROVER_old(VGC_SK_N) + 1 && VGC_SK_KEY == key && VGC_SK_LEN == len && __CPROVER_return_value == VGC_SK_RET)) \
-    __CPROVER_ensures(__CPROVER_return_value ==> posn == 16)
+    __CPROVER_ensures(VGC_BS == 16 ==> (VGC_SK_N == __CPROVER_old(VGC_SK_N) + 1 && VGC_SK_KEY == key && VGC_SK_LEN == len && (__CPROVER_return_value ? 1 : 0) == VGC_SK_RET)) \
+    __CPROVER_ensures(__CPROVER_return_value ? posn == 16 : posn == __CPROVER_old(posn))
 
 /* ---- setIV: 16 bytes only; counter := iv, keystream reset ---- */
 #define VC_CTRCommon__setIV \
